@@ -320,7 +320,7 @@ def auto(ctx, report, facts, config, rule="C12.AUTO", traits=("std::marker::Send
     report.floor(rule, "unsafe impl " + "/".join(t.rsplit("::", 1)[1] for t in traits), n, 2 if len(traits) == 1 else 4, config=config)
 
 
-def run(ctx, report):
+def _run_rules(ctx, report):
     for config in ctx.configs:
         facts = ctx.facts(config)
         only = lambda ident: ident in ("Dispatcher::dispatch", "Dispatcher::dispatch_thread_local", "AsyncDispatcher::wait",
@@ -331,3 +331,10 @@ def run(ctx, report):
         report.guard("C12.ORDER", order, ctx, report, facts, config)
         report.guard("C12.CONVERT", convert, ctx, report, facts, config)
         report.guard("C12.AUTO", auto, ctx, report, facts, config)
+
+
+def run(ctx, report):
+    _run_rules(ctx, report)
+    from .. import shared as _S
+    for config in ctx.configs:
+        report.guard("C12.ENCAPSULATED", _S.encapsulated, ctx, report, "C12.ENCAPSULATED", ctx.facts(config), config, "C12")
